@@ -213,6 +213,9 @@ class Fxp():
         # scaling
         if self.scale is None: self.scale = kwargs.pop('scale', 1)
         if self.bias is None: self.bias = kwargs.pop('bias', 0)
+        # (NumPy-typed scale and bias are python numbers of the same value: limits and readings must not be computed in a narrow type)
+        if isinstance(self.scale, np.generic): self.scale = self.scale.item()
+        if isinstance(self.bias, np.generic): self.bias = self.bias.item()
         self.scaled = True if self.scale != 1 or self.bias != 0 else False
 
         # check if val is a raw value
@@ -693,17 +696,23 @@ class Fxp():
             if set_inaccuracy and val.status['inaccuracy']:
                 self.status['inaccuracy'] = True
 
-            # force return raw value for better precision
-            val = utils.scale_raw(val.val, self.n_frac - val.n_frac)
-            raw = True
+            _self_scaled = self.scale is not None and self.bias is not None and (self.scale != 1 or self.bias != 0)
+            if (_self_scaled or val.scaled) and not raw:
+                # a scaled source or destination: what is stored is the value the source reads (its codes mean something else here)
+                val = val.get_val()
+                vdtype = None if isinstance(val, (np.ndarray, np.generic)) else type(val)
+            else:
+                # force return raw value for better precision
+                val = utils.scale_raw(val.val, self.n_frac - val.n_frac)
+                raw = True
 
-            # a negative shift gives non-integer raw values: they must reach the rounding step as floats
-            if vdtype is not None and np.issubdtype(vdtype, np.integer) and np.issubdtype(np.asarray(val).dtype, np.floating):
-                vdtype = float
-            # integer codes stay integers on their way to the store: the value type of the source tells how its values read, a cast of
-            # its codes to it would round them to 53 bits (float) or wrap the negative ones (an unsigned type)
-            elif np.asarray(val).dtype.kind in 'iu':
-                vdtype = int
+                # a negative shift gives non-integer raw values: they must reach the rounding step as floats
+                if vdtype is not None and np.issubdtype(vdtype, np.integer) and np.issubdtype(np.asarray(val).dtype, np.floating):
+                    vdtype = float
+                # integer codes stay integers on their way to the store: the value type of the source tells how its values read, a cast of
+                # its codes to it would round them to 53 bits (float) or wrap the negative ones (an unsigned type)
+                elif np.asarray(val).dtype.kind in 'iu':
+                    vdtype = int
 
         elif isinstance(val, (int, float, complex)):
             vdtype = type(val)
@@ -755,7 +764,10 @@ class Fxp():
 
             # force return raw value for better precision
             # (rounded exactly by the configured rule; int() dropped the fraction toward zero whatever the rule)
-            _exact = Fraction(val) * Fraction(2)**self.n_frac
+            _exact = Fraction(val)
+            if self.scale is not None and self.bias is not None and (self.scale != 1 or self.bias != 0) and not raw:
+                _exact = (_exact - Fraction(self.bias)) / Fraction(self.scale)      # (the scaled object stores (v - bias) / scale)
+            _exact = _exact * Fraction(2)**self.n_frac
             val = self._round(_exact, method=self.config.rounding)
             if set_inaccuracy and val != _exact:
                 # (the rounded code is handed over as a raw value: the loss is noted here, the store compares codes with codes)
@@ -805,6 +817,8 @@ class Fxp():
             if val.dtype.kind == 'u':
                 # unsigned inputs: removing the bias must not wrap at zero (nor refuse a negative bias)
                 val = val.astype(np.int64) if val.size == 0 or np.max(val) < 2**63 else val.astype(object)
+                if vdtype is not None and vdtype != int and vdtype != complex and np.issubdtype(vdtype, np.unsignedinteger):
+                    vdtype = int        # (a list of NumPy unsigned integers keeps that type as its value type: the descaled values may be negative)
             if self.bias != 0:
                 val = val - self.bias
             if self.scale != 1:
